@@ -15,7 +15,7 @@ TECHNIQUE = ("property-based testing (Hypothesis): generated passes register mar
 RULE = ("a case is a generated listing (with or without function tables, optional 'main' function and entry point) plus "
         "1-4 passes run through PassManager, each registering 1-4 (scope, marker patch) pairs over AllBlocksScope "
         "(ENTRY/EXIT/ANYWHERE, exclude sets), AllFunctionsScope (ENTRY/EXIT x block position, name sets) and "
-        "SingleBlockScope, with literal / regex / MAIN_NAME / ENTRYPOINT_NAME filters. Every invocation emits a marker "
+        "SingleBlockScope, with literal / regex / MAIN_NAME / ENTRYPOINT_NAME filters of 0-3 elements (an empty filter selects / excludes nothing). Every invocation emits a marker "
         "instruction with a fresh id and records its InsertionContext. Checked: invocations == designated set (exactly "
         "once each), context block/offset/function, each marker exactly once in the output bytes at the predicted "
         "position, same-location markers in global registration order, UnresolvableScopeError for function scopes "
